@@ -252,3 +252,9 @@ def run(ctx):
         for c in f.calls(STATEFUL_LIBC):
             bad.append('%s calls %s at %s' % (f.name, c['callee'], f.loc(c)))
     ctx.ob('NO-ESCAPE', 'libc-state', not bad, 'src/', 'no stateful libc calls' if not bad else '; '.join(bad[:4]), None)
+
+    ctx.rule('SIZEOF-MATCH', 'every sized copy (snprintf, psf_strlcpy, strncpy, memcpy, memset ...) whose size argument is sizeof (object) names the object it writes to '
+             '(a sizeof of a different, smaller or larger, member type-checks and truncates or overflows silently)', floor=60)
+    from engine.sizeofrule import sizeof_match
+    sizeof_match(ctx, prog)
+
